@@ -69,8 +69,8 @@ theorem insertRow_perm (cols : List String) (r : List (Cell α)) (l : List (List
   | cons x xs ih =>
     simp only [insertRow]
     split_ifs
-    · exact List.Perm.refl _
     · exact (List.Perm.cons x ih).trans (List.Perm.swap r x xs)
+    · exact List.Perm.refl _
 
 theorem sortRows_perm (cols : List String) (rows : List (List (Cell α))) :
     (sortRows cols rows).Perm rows := by
@@ -91,20 +91,20 @@ theorem insertRow_sorted (cols : List String) (r : List (Cell α)) (l : List (Li
     rw [List.pairwise_cons] at hl
     split_ifs with h
     · rw [List.pairwise_cons]
-      refine ⟨?_, List.pairwise_cons.mpr hl⟩
-      intro y hy
-      simp only [List.mem_cons] at hy
-      rcases hy with rfl | hy
-      · exact le_of_lt h
-      · exact le_trans (le_of_lt h) (hl.1 y hy)
-    · rw [List.pairwise_cons]
       refine ⟨?_, ih hl.2⟩
       intro y hy
       have := (insertRow_perm cols r xs).mem_iff.mp hy
       simp only [List.mem_cons] at this
       rcases this with rfl | hy'
-      · exact not_lt.mp h
+      · exact le_of_lt h
       · exact hl.1 y hy'
+    · rw [List.pairwise_cons]
+      refine ⟨?_, List.pairwise_cons.mpr hl⟩
+      intro y hy
+      simp only [List.mem_cons] at hy
+      rcases hy with rfl | hy
+      · exact not_lt.mp h
+      · exact le_trans (not_lt.mp h) (hl.1 y hy)
 
 /-- the rows of the table are in non-decreasing order of the date string -/
 theorem sortRows_sorted (cols : List String) (rows : List (List (Cell α))) :
@@ -113,6 +113,37 @@ theorem sortRows_sorted (cols : List String) (rows : List (List (Cell α))) :
   induction rows with
   | nil => simp
   | cons r rs ih => exact insertRow_sorted cols r _ ih
+
+/-- inserting `r` puts it in FRONT of the rows with the same date key and leaves the other keys' rows alone -/
+theorem insertRow_filter (cols : List String) (r : List (Cell α)) (l : List (List (Cell α))) (k : String) :
+    (insertRow cols r l).filter (fun x => dateKey cols x == k) =
+      if dateKey cols r == k then r :: l.filter (fun x => dateKey cols x == k) else l.filter (fun x => dateKey cols x == k) := by
+  induction l with
+  | nil => simp [insertRow, List.filter_cons]
+  | cons x xs ih =>
+    simp only [insertRow]
+    split_ifs with h hk hk
+    · -- x < r: x is skipped; if key r = k then key x ≠ k
+      have hx : (dateKey cols x == k) = false := by
+        have : dateKey cols x ≠ k := by
+          intro e; rw [beq_iff_eq] at hk; rw [e, hk] at h; exact lt_irrefl _ h
+        simpa using this
+      rw [List.filter_cons, hx, ih, if_pos hk, List.filter_cons, hx]; simp
+    · rw [List.filter_cons, ih, if_neg hk, List.filter_cons]
+    · rw [List.filter_cons, if_pos hk]
+    · rw [List.filter_cons, if_neg hk]
+
+/-- **the sort is stable**: the rows with a given date key come out in the order they went in — over ties the table keeps
+the order of the concatenated groups, i.e. group order and, inside a group, particle order -/
+theorem sortRows_stable (cols : List String) (rows : List (List (Cell α))) (k : String) :
+    (sortRows cols rows).filter (fun x => dateKey cols x == k) = rows.filter (fun x => dateKey cols x == k) := by
+  unfold sortRows
+  induction rows with
+  | nil => simp
+  | cons r rs ih =>
+    simp only [List.foldr_cons]
+    rw [insertRow_filter, ih, List.filter_cons]
+
 
 /-- the output rows are a permutation of the concatenation of every group's rows: each group
 contributes exactly its `num` rows and each row is carried whole.  (Stated for the model's sort; it
